@@ -473,6 +473,13 @@ fn judge(ctx: &mut Ctx, class: &str, sig: &str, what: String, got: &VleNum, r: &
     ctx.out.max(&format!("dev.{key}.rel"), rel);
     ctx.out.max(&format!("dev.{key}.abs"), abs);
     ctx.out.count("oracle.compared", 1);
+    // a stand-alone result that is itself a near-trivial pair (the un-guided solve shows the
+    // same defect as the known finding, seen at 0.95-0.98 T_c) is no reference
+    let ref_collapsed = (r.rho_l / r.rho_v - 1.0).abs() < 1e-3 && r.x.iter().zip(&r.y).all(|(a, b)| (a - b).abs() < 1e-3) && (got.rho_l / got.rho_v - 1.0).abs() > 1e-2;
+    if ref_collapsed {
+        ctx.out.count("window.standalone_reference_is_a_collapsed_pair", 1);
+        return;
+    }
     if !(rel <= tol_rel) || !(abs <= tol_abs) {
         // distinguish the known family "phases returned in swapped order"
         let swapped = deviation(got.rho_v, r.rho_l, 1e-300) <= tol_rel && deviation(got.rho_l, r.rho_v, 1e-300) <= tol_rel;
@@ -1587,6 +1594,12 @@ pub fn debug_replay(path: &str) {
                 let g = Vle::new_npt(&sys.eos, (rt.t + dt) * KELVIN, Pressure::from_reduced(rt.p), &m, &m).unwrap();
                 let v = Vle::pure(&sys.eos, Pressure::from_reduced(rt.p), Some(&g), SolverOptions::default()).unwrap();
                 println!("pure_p result T={} residuals (dg/T, dp/p) = {:?}", v.vapor().temperature, resid(&v));
+                pool_v.push(v);
+            }
+            SOp::PureP { tf, guess: _ } => {
+                let rt = ref_pure_t(sc.sys, tf * sys.tc).unwrap();
+                let v = Vle::pure(&sys.eos, Pressure::from_reduced(rt.p), None, SolverOptions::default()).unwrap();
+                println!("pure_p (no guess) result T={} rho_v={} rho_l={} residuals {:?}", v.vapor().temperature, v.vapor().density, v.liquid().density, resid(&v));
                 pool_v.push(v);
             }
             SOp::PureT { tf, guess } => {
